@@ -193,8 +193,16 @@ def seeded_variants(prop: str) -> tuple[dict, list]:
             if bad:
                 summary[d.name] = f"reported: {bad[0].rule} {bad[0].construct[:90]}"
             else:
-                summary[d.name] = "MISSED"
-                problems.append((f"seed:{prop}/{d.name}", "missed", "seeded defect not reported"))
+                # The patch still applies but nothing is reported on today's tree.  A seed is a defect of the tree it was written and confirmed on; a later repair
+                # elsewhere can make the same change harmless (the line it removes became redundant).  Replay it on its recorded base before calling it missed.
+                on_base = _replay_on_base(prop, mod, d)
+                if on_base.startswith("reported"):
+                    summary[d.name] = "not reported on today's tree (the change was written against another tree); " + on_base
+                elif on_base.startswith("MISSED") or on_base.startswith("not applicable to this tree (no base"):
+                    summary[d.name] = "MISSED"
+                    problems.append((f"seed:{prop}/{d.name}", "missed", "seeded defect not reported"))
+                else:
+                    summary[d.name] = "not reported on today's tree; " + on_base
         finally:
             shutil.rmtree(tmp, ignore_errors=True)
     return summary, problems
